@@ -4,12 +4,12 @@ go 1.22
 
 require (
 	github.com/enfein/mieru/v3 v3.0.0
+	golang.org/x/crypto v0.33.0
 	google.golang.org/protobuf v1.34.2
 )
 
 require (
 	github.com/google/btree v1.1.3 // indirect
-	golang.org/x/crypto v0.33.0 // indirect
 	golang.org/x/net v0.26.0 // indirect
 	golang.org/x/sys v0.30.0 // indirect
 	golang.org/x/text v0.22.0 // indirect
